@@ -89,7 +89,14 @@ class DistinctCounter:
 
     def _compact(self):
         if self._chunks:
-            self._chunks = [np.unique(np.concatenate(self._chunks))]
+            # sort + neighbour comparison, not np.unique: NumPy >= 2.3 routes np.unique of integer arrays
+            # through a hash table whose hash of these (already hashed) 64-bit keys degenerates - 3e7 keys
+            # of C02's thorough tier kept one core busy for an hour
+            a = np.concatenate(self._chunks)
+            a.sort(kind="stable")
+            keep = np.ones(a.size, dtype=bool)
+            keep[1:] = a[1:] != a[:-1]
+            self._chunks = [a[keep]]
 
     def merge(self, other: "DistinctCounter"):
         self._chunks.extend(other._chunks)
